@@ -86,6 +86,13 @@ def showE {β} (f : β → String) : Except Err β → String
   | .error .unmodelled => "unmodelled"
   | .error e => s!"err:{e.name}"
 
+/-- reply for a call the coded model rejects: the rejection, plus — when the natural total extension
+    of the operation is defined — the only result the property allows if the code accepts the call -/
+def withAlt (coded : String) (alt : Option String) : String :=
+  match alt with
+  | some a => if coded.startsWith "err:" && !(a.startsWith "err:") && a != "unmodelled" then s!"{coded} alt={a}" else coded
+  | none => coded
+
 def ratPow (a : Rat) : Nat → Rat
   | 0 => 1
   | n + 1 => a * ratPow a n
@@ -138,10 +145,14 @@ def step (line : String) : String :=
         if xs.length ≠ prodL sh * w then throw "from:cells"
         pure (⟨n, sh, w, chunkRows w (prodL sh) xs⟩ : Coord Rat))
       return showE showPoints (Points.fromCoordinates cs)
-    | "pts.get" => do let p ← pPoints; let ix ← pIndex; return showE showPoints (p.getitem ix)
+    | "pts.get" => do
+      let p ← pPoints; let ix ← pIndex
+      return withAlt (showE showPoints (p.getitem ix))
+        ((altIndex (p.shape.length + 1) ix).map fun jx => showE showPoints (p.getitem jx))
     | "pts.set" => do
       let p ← pPoints; let ix ← pIndex; let q ← pPoints
-      return showE showPoints (p.setitem ix q)
+      return withAlt (showE showPoints (p.setitem ix q))
+        ((altIndex (p.shape.length + 1) ix).map fun jx => showE showPoints (p.setitem jx q))
     | "obj.run" => do
       -- one object: assignments, type conversions, requires_grad changes; reply = final state
       let t ← pTPoints
@@ -171,7 +182,9 @@ def step (line : String) : String :=
       return showE showPoints (ms.foldlM (fun acc (m : Index × Points Rat) => acc.setitem m.1 m.2) p)
     | "dt.join" => do let p ← pTPoints; let q ← pTPoints; return showT (p.join q)
     | "dt.cat" => do let p ← pTPoints; let q ← pTPoints; return showT (p.cat q)
-    | "dt.joined" => do let ps ← many pTPoints; return showT (TPoints.joined ps)
+    | "dt.joined" => do
+      let ps ← many pTPoints
+      return withAlt (showT (TPoints.joined ps)) (some (showT (TPoints.joinedTotal ps)))
     | "dt.arith" => do
       let o ← next; let p ← pTPoints; let q ← pTPoints
       -- torch converts both operands to the promoted type first: comparable only if nothing rounds there
@@ -206,7 +219,9 @@ def step (line : String) : String :=
         | _ => return showE showPoints chk
     | "pts.cat" => do let p ← pPoints; let q ← pPoints; return showE showPoints (p.cat q)
     | "pts.join" => do let p ← pPoints; let q ← pPoints; return showE showPoints (p.join q)
-    | "pts.joined" => do let ps ← many pPoints; return showE showPoints (Points.joined ps)
+    | "pts.joined" => do
+      let ps ← many pPoints
+      return withAlt (showE showPoints (Points.joined ps)) (some (showE showPoints (Points.joinedTotal ps)))
     | "pts.repeat" => do let p ← pPoints; let ns ← many int; return showE showPoints (p.repeat ns)
     | "pts.unsq" => do let p ← pPoints; let d ← int; return showE showPoints (p.unsqueeze d)
     | "pts.eq" => do let p ← pPoints; let q ← pPoints; return toString (p.beq q)
